@@ -39,6 +39,7 @@ EXPLANATION = (
 ASSUMPTIONS = ["pandapower's _get_index_with_check / _check_element / _check_branch_element raise on duplicate indices and unknown junctions",
                "add_new_component only adds an empty table (schema registration)"]
 TECHNIQUE = "CFG reachability with validator/writer classification, def-use of parameters into reference columns, sibling table agreement, docstring/signature agreement"
+EXPLANATION += (' ' + '(R16.9) in the create functions and the helpers they reach, an optional numeric input (a parameter with default None or a value taken out of **kwargs whose name marks it as a quantity) is never tested by its truth value.')
 
 VALIDATORS = {"_check_junction_element", "_check_multiple_junction_elements", "_check_branch", "_check_branches", "_check_std_type",
               "_get_index_with_check", "_get_multiple_index_with_check", "_check_element", "_check_multiple_elements",
